@@ -290,6 +290,71 @@ class Ctx:
         # among those, only what talks about the goal's symbols or the symbols of their definitions
         return self.relevant_hyps(out, goal, level=0)
 
+    _BV = None
+
+    @staticmethod
+    def skeleton(t):
+        """term with generated constants replaced by a placeholder and bound variables renamed in order of
+        appearance -> (skeleton, [generated constants in order])"""
+        import re
+        if Ctx._SYM is None:
+            Ctx._SYM = re.compile(r"[A-Za-z_][A-Za-z0-9_<>.]*[!@][0-9]+")
+        if Ctx._BV is None:
+            Ctx._BV = re.compile(r"(?<![A-Za-z0-9_!@.])[a-z][a-z0-9]*_[0-9]+(?![A-Za-z0-9_!@])")
+        syms = Ctx._SYM.findall(t)
+        t2 = Ctx._SYM.sub("\u00a7", t)
+        m = {}
+
+        def f(mo):
+            k = mo.group(0)
+            if k not in m:
+                m[k] = "%s#%d" % (k.rsplit("_", 1)[0], len(m))
+            return m[k]
+        return Ctx._BV.sub(f, t2), syms
+
+    def frame_hyps(self, hyps, goal):
+        """hypothesis selection for 'the same statement again in a later state': every large conjunct of the
+        goal must have a hypothesis conjunct of the same shape (equal up to generated constants and bound
+        names); kept are those conjuncts and the small facts relating the constants that differ.  Dropping
+        hypotheses is sound."""
+        gcs = [c for c in Ctx.conjuncts(goal)]
+        big = [c for c in gcs if len(c) > 200]
+        if not big:
+            return None
+        hcs = []
+        for h in hyps:
+            hcs.extend(Ctx.conjuncts(h))
+        index = {}
+        for c in hcs:
+            if len(c) > 200:
+                sk, sy = Ctx.skeleton(c)
+                index.setdefault(sk, []).append((c, sy))
+        chosen, diff = [], set()
+        for g in big:
+            sk, sy = Ctx.skeleton(g)
+            cands = index.get(sk)
+            if not cands:
+                return None
+            # the candidate differing in the fewest constants
+            best = min(cands, key=lambda cs: sum(1 for a, b in zip(sy, cs[1]) if a != b))
+            chosen.append(best[0])
+            for a, b in zip(sy, best[1]):
+                if a != b:
+                    diff.add(a)
+                    diff.add(b)
+        import re
+        small = []
+        used = 0
+        gsy = set(Ctx._SYM.findall(goal))
+        for c in hcs:
+            if len(c) <= 700 and c not in chosen:
+                ss = set(Ctx._SYM.findall(c))
+                if ss & diff or (ss and ss <= gsy and len(c) <= 300):
+                    if used + len(c) < 30000:
+                        small.append(c)
+                        used += len(c)
+        return chosen + small
+
     def relevant_hyps(self, hyps, goal, rounds=3, level=1):
         """hypothesis selection by distance in the symbol graph (generated constants, names containing ! or @):
         breadth-first from the goal's symbols, nearest and smallest facts first, until a size budget is used
@@ -333,6 +398,11 @@ class Ctx:
         hyps = self.axioms.for_path(ob.meta.get("path", "")) + list(ob.hyps)
         if relevant and level == "same":
             hh = self.same_clause_hyps(hyps, ob.goal)
+            if hh is None:
+                return None
+            hyps = hh
+        elif relevant and level == "frame":
+            hh = self.frame_hyps(hyps, ob.goal)
             if hh is None:
                 return None
             hyps = hh
